@@ -128,3 +128,13 @@ claim("C02",
       "labels needing XML escaping. Numbers and XML are concrete per path (float<->text and expat are C boundaries).",
       TB, "symbolic execution (CrossHair+z3 sequence theory) of escape_nexus_token + NexusTokenizer on symbolic labels; symbolic-choice driven write/read round trips of real trees",
       "DESIGN.md 3/C02")
+
+claim("C13",
+      "Bounded symbolic execution over a document grammar: Newick, NEXUS (TAXA + one or two TREES blocks, TRANSLATE per block with a reversed "
+      "table) and NeXML documents are assembled from symbolic choices (tree bodies incl. numeral labels, rooting/weight tokens, plain and "
+      "metadata comments, distribution over blocks, reader options, fresh or pre-populated namespace, namespace shared with the reference read "
+      "or owned by the route). Every route - Tree.get by offsets, TreeList.read, Tree.yield_from_files, DataSet.get, TreeArray.read, "
+      "data=/file=/path= - is compared with TreeList.get: structure, labels, lengths, rooting, weight, tree label, comments, annotations, taxon "
+      "identity or namespace label order. The text is concrete per path; the solver's part is the exhaustive, non-redundant walk of the grammar.",
+      TB, "symbolic-choice driven (CrossHair+z3) exhaustive walk of a document grammar through every reading route, compared pairwise",
+      "DESIGN.md 3/C13")
